@@ -84,7 +84,7 @@ def schedule_from_counterexample(path, n_nodes):
     return sched, states
 
 
-PV_RE = re.compile(r'"PROP_VIOLATED", (\d+), \{([^}]*)\}')
+PV_RE = re.compile(r'<< ?"PROP_VIOLATED", (\d+), \{([^}]*)\}, \{([^}]*)\} ?>>')
 
 
 def validate(trace_file, cfg="RaftTrace.cfg", timeout=3000, tag="rafttv"):
@@ -116,14 +116,16 @@ def validate(trace_file, cfg="RaftTrace.cfg", timeout=3000, tag="rafttv"):
         rejections.append({"run": ri, "event_index": ei, "event": runs[ri][ei], "prefix": runs[ri][:ei + 1]})
     props = []
     seen = set()
-    for x in PV_RE.finditer(r.output):
+    flat = re.sub(r"\s+", " ", r.output)      # TLC pretty-prints long tuples over several lines
+    for x in PV_RE.finditer(flat):
         line = int(x.group(1))
+        trig = sorted(re.findall(r'"([^"]+)"', x.group(3)))
         for name in re.findall(r'"(\w+)"', x.group(2)):
             if (line, name) in seen:
                 continue
             seen.add((line, name))
             ri, ei = locate(line)
-            props.append({"run": ri, "event_index": ei, "property": name, "prefix": runs[ri][:ei + 1]})
+            props.append({"run": ri, "event_index": ei, "property": name, "trig": trig, "prefix": runs[ri][:ei + 1]})
     bad = {x["run"] for x in rejections}
     return {"accepted": len(runs) - len(bad), "rejections": rejections, "props": props, "events": len(events),
             "runs": len(runs), "wall": r.wall}
